@@ -69,6 +69,33 @@ def create_from_file(src, out):
         return fh.read()
 
 
+def create_cli(desc, fmt, workdir, name="cli_in"):
+    """The real CLI in a subprocess: suit-generator create --input-file ... --output-file ..."""
+    src = os.path.join(workdir, f"{name}.{fmt}")
+    out = os.path.join(workdir, f"{name}.suit")
+    dump_desc(desc, src)
+    if os.path.exists(out):
+        os.unlink(out)
+    r = cli(["create", "--input-file", src, "--output-file", out], workdir)
+    if r.returncode != 0 or not os.path.exists(out):
+        raise RuntimeError(f"CLI create exit {r.returncode}: {r.stderr[-300:]}")
+    with open(out, "rb") as fh:
+        return fh.read()
+
+
+def parse_cli(data, fmt, hierarchy, workdir, name="cli_p"):
+    src = os.path.join(workdir, f"{name}.suit")
+    out = os.path.join(workdir, f"{name}.{fmt}")
+    with open(src, "wb") as fh:
+        fh.write(data)
+    if os.path.exists(out):
+        os.unlink(out)
+    r = cli(["parse", "--input-file", src, "--output-file", out] + (["--parse-hierarchy"] if hierarchy else []), workdir)
+    if r.returncode != 0 or not os.path.exists(out):
+        raise RuntimeError(f"CLI parse exit {r.returncode}: {r.stderr[-300:]}")
+    return out
+
+
 def parse_mem(data):
     from suit_generator.suit.envelope import SuitEnvelopeTagged
 
